@@ -175,6 +175,8 @@ def install(it):
 
     @nat("hasattr")
     def _hasattr(it, o, name):
+        if isinstance(o, (SV, CV)) and name in ("__iter__", "__len__", "__getitem__", "keys", "items"):
+            return False        # symbolic scalars are not containers
         try:
             it.getattr(o, name)
             return True
